@@ -348,7 +348,7 @@ Fixpoint uses_graph (p : Sparql.Algebra.alg) : bool :=
   match p with
   | Sparql.Algebra.BGP _ | Sparql.Algebra.Values _ => false
   | Sparql.Algebra.Join _ a b | Sparql.Algebra.Union a b | Sparql.Algebra.Minus a b | Sparql.Algebra.LeftJoin _ a b _ => uses_graph a || uses_graph b
-  | Sparql.Algebra.Filter _ _ _ q | Sparql.Algebra.Extend _ q _ _ | Sparql.Algebra.Project q _ | Sparql.Algebra.Distinct q => uses_graph q
+  | Sparql.Algebra.Filter _ _ _ q | Sparql.Algebra.Extend _ q _ _ | Sparql.Algebra.Project q _ | Sparql.Algebra.Distinct q | Sparql.Algebra.Slice _ q => uses_graph q
   | Sparql.Algebra.Graph _ _ => true
   end.
 
